@@ -152,6 +152,7 @@ structure BaseRec (r : Rec) : Prop where
   special : r.special = (getSchemeType r.scheme != 1)
   pathSegs : r.opq = false → ∃ segs, r.path = FP.pathText segs ∧ PP.NoSlash segs
   specialNotOpaque : getSchemeType r.scheme ≠ 1 → r.opq = false
+  fileNoCred : getSchemeType r.scheme = 6 → r.username = [] ∧ r.password = [] ∧ r.port = none
 
 theorem toL_na (r : Rec) (hb : BaseRec r) : NoAuthNoCred (toL r) := by
   intro h
@@ -863,7 +864,7 @@ theorem baseRec_of (b : Url) (hinv : RecInv b = true) (hseg : PP.NoSlash b.path)
     simp only [Url.isSpecial, hs, Bool.not_true, Bool.false_or, Bool.and_eq_true] at this
     exact ⟨this.1.1.1, by simpa using this.1.2⟩
   have htf := Proto.type_facts b.scheme
-  refine ⟨?_, ?_, ?_, hch.noColon, ?_, htf.1.symm, ?_, ?_⟩
+  refine ⟨?_, ?_, ?_, hch.noColon, ?_, htf.1.symm, ?_, ?_, ?_⟩
   · intro hn
     have : b.host = none := by cases h : b.host <;> simp_all [UR.recOf]
     exact ok.hostless this
@@ -900,5 +901,362 @@ theorem baseRec_of (b : Url) (hinv : RecInv b = true) (hseg : PP.NoSlash b.path)
     have hs : isSpecialScheme b.scheme = true := by
       rw [← htf.1]; simpa using hne'
     exact (hspec hs).2
+  · intro h6
+    have h6' : getSchemeType b.scheme = 6 := h6
+    have hf : (b.scheme == bFile) = true := by rw [← htf.2.1, h6']; rfl
+    exact hcan (by simp [Url.cannotHaveUsernamePasswordPort, hf])
+
+end AdaVerif.Lemmas.PAB
+
+namespace AdaVerif.Lemmas.PAB
+open AdaVerif AdaVerif.Spec AdaVerif.Lemmas AdaVerif.Lemmas.AggL AdaVerif.Lemmas.PA AdaVerif.Model AdaVerif.Model.Agg
+  AdaVerif.Model.ParseSpecial AdaVerif.Model.ParseAgg AdaVerif.Model.UrlRec AdaVerif.Model.HostParse
+
+/-! ### FILE and FILE_SLASH with a file base -/
+/-- a base object of type FILE: its record -/
+structure FileRec (r : Rec) : Prop where
+  base : BaseRec r
+  ty : getSchemeType r.scheme = 6
+
+theorem FileRec.scheme {r : Rec} (h : FileRec r) : r.scheme = bFile := by
+  have := (Proto.type_facts r.scheme).2.1
+  rw [h.ty] at this
+  simpa using this.symm
+
+theorem FileRec.host {r : Rec} (h : FileRec r) : ∃ x, r.host = some x := by
+  have := h.base.specialHost (by rw [h.ty]; decide)
+  cases hh : r.host with
+  | none => rw [hh] at this; cases this
+  | some x => exact ⟨x, rfl⟩
+
+theorem FileRec.opq {r : Rec} (h : FileRec r) : r.opq = false := h.base.specialNotOpaque (by rw [h.ty]; decide)
+
+/-- the content of a `file` object that took host, path and query over from the base -/
+def LFI (r : Rec) (path : Bytes) (query : Option Bytes) : L :=
+  { scheme := bFile ++ [0x3A], auth := true, user := [], pass := [], host := r.host.getD [], port := none, dashdot := false,
+    path := path, query := query, frag := none, opq := false }
+
+theorem LFI_na (r : Rec) (p : Bytes) (q : Option Bytes) : NoAuthNoCred (LFI r p q) := by intro h; cases h
+theorem LFI_dd (r : Rec) (p : Bytes) (q : Option Bytes) : DashDotOk (LFI r p q) := by intro h; cases h
+
+/-- the `ada::url` object of a `file` URL that took its host from the base -/
+def fileOut (r : Rec) (P : Bytes) (Q F : Option Bytes) : Rec :=
+  { scheme := bFile, special := true, username := [], password := [], host := r.host, port := none, path := P, query := Q,
+    hash := F, opq := false }
+
+theorem toL_fileInherit (r : Rec) (hf : FileRec r) (P : Bytes) (Q F : Option Bytes) :
+    toL (fileOut r P Q F) = { LFI r P Q with frag := F } := by
+  obtain ⟨x, hx⟩ := hf.host
+  simp [toL, fileOut, LFI, hx, pathStartsSlashSlash]
+
+theorem getHost_toL (r : Rec) (hf : FileRec r) : getHost (layout (toL r)) = r.host.getD [] := by
+  have hgh := getHostname_toL r hf.base
+  obtain ⟨x, hx⟩ := hf.host
+  have hport : r.port = none := (hf.base.fileNoCred hf.ty).2.2
+  have hps : (layout (toL r)).ps = (layout (toL r)).he := by simp [layout, toL, hx, hport, portS, ddS]
+  have key : ∀ (buf : Bytes) (start he : Nat) (X : Bytes), slice buf start he = X → (if (start == he) = true then [] else slice buf start he) = X := by
+    intro buf start he X h
+    split
+    · rename_i hst
+      have : start = he := by simpa using hst
+      rw [← h, this]
+      simp [slice]
+    · exact h
+  unfold getHost
+  unfold getHostname at hgh
+  simp only [hps]
+  exact key _ _ _ _ hgh
+
+/-- "url's host := base's host" on the `file` object right after FILE -/
+theorem fileHostCopy (r : Rec) (hf : FileRec r) (x : Bytes) (hx : x = r.host.getD []) :
+    updateHostToBaseHost true true (layout (LH (bFile ++ [0x3A]) [] [] [] none)) x = layout (LFI r [] none) := by
+  unfold updateHostToBaseHost
+  simp only [Bool.not_true, Bool.false_and, Bool.false_eq_true, ↓reduceIte]
+  rw [hostname_LH, hx]
+  rfl
+
+theorem filePathA_from (r : Rec) (hf : FileRec r) (l : L) (hl : l = LFI r l.path none) (segs : List Bytes)
+    (hpath : l.path = FP.pathText segs) (hn : PP.NoSlash segs) (frag : Option Bytes) (t : Bytes) (P : Bytes) (Q : Option Bytes)
+    (hpq : pathQFrom true 6 l.path t = (P, Q)) :
+    filePathA (layout l) frag t = layout (toL (fileOut r P Q (encFrag frag))) := by
+  unfold filePathA
+  rw [toL_fileInherit r hf]
+  have hna : NoAuthNoCred l := by rw [hl]; exact LFI_na _ _ _
+  have hdd : DashDotOk l := by rw [hl]; exact LFI_dd _ _ _
+  have hq : l.query = none := by rw [hl]; rfl
+  have hfr : l.frag = none := by rw [hl]; rfl
+  have hau : l.auth = true := by rw [hl]; rfl
+  have ho : l.opq = false := by rw [hl]; rfl
+  have hd0 : l.dashdot = false := by rw [hl]; rfl
+  by_cases hne : l.path = []
+  · have hpq' : pathQ true 6 t = (P, Q) := by rw [← hpq, hne]; rfl
+    rw [pathQA_layout true 6 l t hna hd0 hne hq hfr ho (Or.inl hau), withFragment_layout _ _ (by exact hfr), hpq', hau]
+    rw [hl]
+    simp [LFI, encFrag]
+  · rw [pathQA_nonempty true bFile 6 ⟨by decide, by decide⟩ l segs hpath hne hn t hna hdd, hpq, hq,
+      withFragment_layout _ _ (by exact hfr), newDashDot_ok _ _ hdd, hau]
+    rw [hl]
+    simp [LFI, encFrag]
+    cases Q <;> rfl
+
+end AdaVerif.Lemmas.PAB
+
+namespace AdaVerif.Lemmas.PAB
+open AdaVerif AdaVerif.Spec AdaVerif.Lemmas AdaVerif.Lemmas.AggL AdaVerif.Lemmas.PA AdaVerif.Model AdaVerif.Model.Agg
+  AdaVerif.Model.ParseSpecial AdaVerif.Model.ParseAgg AdaVerif.Model.UrlRec AdaVerif.Model.HostParse
+
+theorem fileInherit_out (r : Rec) (frag : Option Bytes) (P : Bytes) (Q : Option Bytes) :
+    fileInherit r frag P Q false = .ok (fileOut r P Q (encFrag frag)) := rfl
+
+theorem newDashDot_auth (l : L) (P : Bytes) (ha : l.auth = true) (hd : l.dashdot = false) : newDashDot l P = false := by
+  unfold newDashDot; cases startsWithSlashSlash P <;> simp [ha, hd]
+
+/-- host, path and query of the base taken over (FILE, base of type FILE) -/
+theorem fileTakeOver (r : Rec) (hf : FileRec r) :
+    ({ copySearch (updateBasePathname (updateHostToBaseHost true true (layout (LH (bFile ++ [0x3A]) [] [] [] none))
+        (getHostname (layout (toL r)))) (getPathname (layout (toL r)))) (layout (toL r)) with opq := (layout (toL r)).opq } : Agg) =
+      layout (LFI r r.path r.query) := by
+  rw [fileHostCopy r hf _ (getHostname_toL r hf.base), Props.C07.getPathname_layout,
+    updateBasePathname_layout _ _ (LFI_na _ _ _) (LFI_dd _ _ _), copySearch_eq]
+  rw [newDashDot_auth _ _ rfl rfl]
+  have hopq : (layout (toL r)).opq = false := hf.opq
+  have : ∀ l : L, l.opq = false → ({ layout l with opq := (layout (toL r)).opq } : Agg) = layout l := by
+    intro l hl; rw [hopq]; cases l; simp_all [layout]
+  rw [this _ rfl]
+  simp [LFI, toL, qOr]
+  cases r.query <;> rfl
+
+theorem fileOtherA_eq (r : Rec) (hf : FileRec r) (frag : Option Bytes) (t : Bytes) :
+    some (fileOtherA (some (layout (toL r))) (layout (LH (bFile ++ [0x3A]) [] [] [] none)) frag t) =
+      aggOf (fileOther (some r) frag t) := by
+  unfold fileOtherA fileOther
+  simp only [fileTakeOver r hf, hf.opq, fileInherit_out, aggOf]
+  obtain ⟨segs, hsegs, hns⟩ := hf.base.pathSegs hf.opq
+  cases t with
+  | nil =>
+    simp only
+    rw [withFragment_layout _ _ rfl, toL_fileInherit r hf]
+    rfl
+  | cons c rest =>
+    simp only
+    by_cases hq : (c == 0x3F) = true
+    · simp only [hq, ↓reduceIte]
+      rw [updateBaseSearch_layout, withFragment_layout _ _ rfl, toL_fileInherit r hf]
+      rfl
+    · simp only [hq, Bool.false_eq_true, ↓reduceIte]
+      rw [clearSearch_layout]
+      have hl4 : ({ LFI r r.path r.query with query := none } : L) = LFI r r.path none := rfl
+      rw [hl4]
+      by_cases hdl : PathPrepared.isWindowsDriveLetter (c :: rest) = true
+      · -- the input starts with a drive letter: the inherited path goes
+        simp only [hdl, Bool.not_true, Bool.false_eq_true, ↓reduceIte]
+        rw [clearPathname_layout _ (LFI_dd _ _ _)]
+        have hl5 : ({ LFI r r.path none with dashdot := false, path := [] } : L) = LFI r [] none := rfl
+        rw [hl5]
+        generalize hpq : pathQFrom true 6 [] (c :: rest) = pq
+        obtain ⟨P, Q⟩ := pq
+        congr 1
+        exact filePathA_from r hf (LFI r [] none) rfl [] rfl (by intro s hs; cases hs) frag (c :: rest) P Q hpq
+      · simp only [hdl, Bool.not_false, ↓reduceIte]
+        rw [Props.C07.getPathname_layout]
+        have hp4 : (LFI r r.path none).path = r.path := rfl
+        rw [hp4]
+        have hshort : PathPrepared.shortenPath r.path 6 = FP.pathText (Spec.shortenPath bFile segs) := by
+          rw [hsegs]; exact PP.shortenPath_eq bFile 6 (by decide) segs hns
+        generalize PathPrepared.shortenPath r.path 6 = short at hshort
+        have ha2 : (if (short != r.path) = true then updateBasePathname (layout (LFI r r.path none)) short else layout (LFI r r.path none)) =
+            layout (LFI r short none) := by
+          by_cases hne : (short != r.path) = true
+          · simp only [hne, ↓reduceIte]
+            rw [updateBasePathname_layout _ short (LFI_na _ _ _) (LFI_dd _ _ _), newDashDot_auth _ _ rfl rfl]
+            rfl
+          · simp only [hne, Bool.false_eq_true, ↓reduceIte]
+            have he : short = r.path := by simpa using hne
+            rw [he]
+        rw [ha2]
+        generalize hpq : pathQFrom true 6 short (c :: rest) = pq
+        obtain ⟨P, Q⟩ := pq
+        congr 1
+        exact filePathA_from r hf (LFI r short none) rfl (Spec.shortenPath bFile segs) hshort
+          (PB.noSlash_shorten bFile segs hns) frag (c :: rest) P Q hpq
+
+end AdaVerif.Lemmas.PAB
+
+namespace AdaVerif.Lemmas.PAB
+open AdaVerif AdaVerif.Spec AdaVerif.Lemmas AdaVerif.Lemmas.AggL AdaVerif.Lemmas.PA AdaVerif.Model AdaVerif.Model.Agg
+  AdaVerif.Model.ParseSpecial AdaVerif.Model.ParseAgg AdaVerif.Model.UrlRec AdaVerif.Model.HostParse
+
+theorem fileSlashOtherA_eq (r : Rec) (hf : FileRec r) (frag : Option Bytes) (t : Bytes) :
+    some (fileSlashOtherA (some (layout (toL r))) (layout (LH (bFile ++ [0x3A]) [] [] [] none)) frag t) =
+      aggOf (fileSlashOther (some r) frag t) := by
+  unfold fileSlashOtherA fileSlashOther
+  simp only [fileHostCopy r hf _ (getHost_toL r hf), Props.C07.getPathname_layout, fileInherit_out, aggOf]
+  have hp : (toL r).path = r.path := rfl
+  rw [hp]
+  obtain ⟨segs, hsegs, hns⟩ := hf.base.pathSegs hf.opq
+  -- the path the object starts PATH with: the base's drive letter, or nothing
+  generalize hfirst : (r.path.drop 1).takeWhile (· != 0x2F) = first
+  by_cases hcond : (!r.path.isEmpty && !PathPrepared.isWindowsDriveLetter t && PathPrepared.isNormalizedWindowsDriveLetter first) = true
+  · simp only [hcond, ↓reduceIte]
+    rw [appendBasePathname_layout]
+    have hl : ({ LFI r [] none with path := (LFI r [] none).path ++ 0x2F :: first } : L) = LFI r (0x2F :: first) none := rfl
+    rw [hl]
+    -- `first` is the first segment of the base path
+    have hsegne : segs ≠ [] := by
+      intro e
+      rw [hsegs, e] at hcond
+      simp [FP.pathText] at hcond
+    obtain ⟨p, more, hpm⟩ : ∃ p more, segs = p :: more := by
+      cases segs with
+      | nil => exact absurd rfl hsegne
+      | cons p more => exact ⟨p, more, rfl⟩
+    have hfp : first = p := by
+      rw [← hfirst, hsegs, hpm]
+      exact PB.first_segment p more (hns p (by rw [hpm]; simp))
+    generalize hpq : pathQFrom true 6 (0x2F :: first) t = pq
+    obtain ⟨P, Q⟩ := pq
+    congr 1
+    exact filePathA_from r hf (LFI r (0x2F :: first) none) rfl [p] (by rw [hfp]; simp [FP.pathText, LFI])
+      (by intro s hs; simp only [List.mem_singleton] at hs; subst hs; exact hns s (by rw [hpm]; simp)) frag t P Q hpq
+  · simp only [hcond, Bool.false_eq_true, ↓reduceIte]
+    generalize hpq : pathQFrom true 6 [] t = pq
+    obtain ⟨P, Q⟩ := pq
+    congr 1
+    exact filePathA_from r hf (LFI r [] none) rfl [] rfl (by intro s hs; cases hs) frag t P Q hpq
+
+/-- the model's file base is the base object when its type is FILE -/
+theorem fileBaseA_toL (r : Rec) : fileBaseA (layout (toL r)) = if getSchemeType r.scheme == 6 then some (layout (toL r)) else none := by
+  unfold fileBaseA
+  rw [baseType_layout]
+
+theorem fileSlashBA_eq (idna : Idna) (r : Rec) (hb : BaseRec r) (frag : Option Bytes) (t : Bytes) (hid : ∀ d, HP.IdnaAt idna d) :
+    fileSlashBA idna (fileBaseA (layout (toL r))) (layout (LH (bFile ++ [0x3A]) [] [] [] none)) frag t =
+      aggOf (fileSlashB idna (fileBase r) frag t) := by
+  unfold fileSlashBA fileSlashB
+  have hother : some (fileSlashOtherA (fileBaseA (layout (toL r))) (layout (LH (bFile ++ [0x3A]) [] [] [] none)) frag t) =
+      aggOf (fileSlashOther (fileBase r) frag t) := by
+    rw [fileBaseA_toL]
+    unfold fileBase
+    by_cases h6 : (getSchemeType r.scheme == 6) = true
+    · simp only [h6, ↓reduceIte]
+      exact fileSlashOtherA_eq r ⟨hb, by simpa using h6⟩ frag t
+    · simp only [h6, Bool.false_eq_true, ↓reduceIte]
+      unfold fileSlashOtherA fileSlashOther
+      exact filePathA_eq frag t
+  cases t with
+  | nil => exact hother
+  | cons c r' =>
+    simp only
+    split
+    · exact fileHostA_eq idna frag r' hid
+    · exact hother
+
+theorem fileBA_eq (idna : Idna) (r : Rec) (hb : BaseRec r) (a0 : Agg)
+    (ha0 : updateBaseHostname (setSchemeWithColon a0 (bFile ++ [0x3A])) [] = layout (LH (bFile ++ [0x3A]) [] [] [] none))
+    (frag : Option Bytes) (t : Bytes) (hid : ∀ d, HP.IdnaAt idna d) :
+    fileBA idna (fileBaseA (layout (toL r))) a0 frag t = aggOf (fileB idna (fileBase r) frag t) := by
+  unfold fileBA fileB
+  rw [ha0]
+  have hother : some (fileOtherA (fileBaseA (layout (toL r))) (layout (LH (bFile ++ [0x3A]) [] [] [] none)) frag t) =
+      aggOf (fileOther (fileBase r) frag t) := by
+    rw [fileBaseA_toL]
+    unfold fileBase
+    by_cases h6 : (getSchemeType r.scheme == 6) = true
+    · simp only [h6, ↓reduceIte]
+      exact fileOtherA_eq r ⟨hb, by simpa using h6⟩ frag t
+    · simp only [h6, Bool.false_eq_true, ↓reduceIte]
+      unfold fileOtherA fileOther
+      exact filePathA_eq frag t
+  cases t with
+  | nil => exact hother
+  | cons c r' =>
+    simp only
+    split
+    · exact fileSlashBA_eq idna r hb frag r' hid
+    · exact hother
+
+end AdaVerif.Lemmas.PAB
+
+namespace AdaVerif.Lemmas.PAB
+open AdaVerif AdaVerif.Spec AdaVerif.Lemmas AdaVerif.Lemmas.AggL AdaVerif.Lemmas.PA AdaVerif.Model AdaVerif.Model.Agg
+  AdaVerif.Model.ParseSpecial AdaVerif.Model.ParseAgg AdaVerif.Model.UrlRec AdaVerif.Model.HostParse
+
+theorem fileStart_empty : updateBaseHostname (setSchemeWithColon emptyAgg (bFile ++ [0x3A])) [] = layout (LH (bFile ++ [0x3A]) [] [] [] none) := by
+  rw [setSchemeWithColon_empty]
+  exact hostname_LA (bFile ++ [0x3A]) false [] [] [] (fun _ => ⟨rfl, rfl⟩)
+
+theorem fileStart_scheme :
+    updateBaseHostname (setSchemeWithColon (layout (LA (bFile ++ [0x3A]) false [] [])) (bFile ++ [0x3A])) [] =
+      layout (LH (bFile ++ [0x3A]) [] [] [] none) := by
+  rw [setSchemeWithColon_layout _ _ (by simp [LA, bFile])]
+  exact hostname_LA (bFile ++ [0x3A]) false [] [] [] (fun _ => ⟨rfl, rfl⟩)
+
+/-- **with a base, both instantiations stay in step - every route** -/
+theorem machineBA_eq_full (idna : Idna) (r : Rec) (hb : BaseRec r) (input : Bytes) (hid : ∀ d, HP.IdnaAt idna d) :
+    machineBA idna (layout (toL r)) input = some (aggOf (machineB idna r input)) := by
+  by_cases hroute : getSchemeType r.scheme ≠ 6 ∧
+      (∀ name rest, schemeScan (prep input).1 = some (name, rest) → (parseSchemeNoOverride name).1 ≠ 6)
+  · exact machineBA_eq idna r hb input hroute.1 hroute.2
+  · -- a file URL on one side at least
+    unfold machineBA machineB
+    have hbt := baseType_layout r
+    have hopq : (layout (toL r)).opq = r.opq := rfl
+    generalize hpd : prep input = pd at hroute ⊢
+    obtain ⟨d, frag⟩ := pd
+    simp only at hroute ⊢
+    rw [hbt, hopq]
+    cases hss : schemeScan d with
+    | none =>
+      rw [hss] at hroute
+      have h6 : getSchemeType r.scheme = 6 := by
+        cases hx : decide (getSchemeType r.scheme = 6) with
+        | true => simpa using hx
+        | false =>
+          exfalso; apply hroute
+          exact ⟨by simpa using hx, by intro _ _ h; cases h⟩
+      have hno : r.opq = false := hb.specialNotOpaque (by rw [h6]; decide)
+      have hne66 : ((6 : Nat) != 6) = false := rfl
+      simp only [hno, Bool.false_and, Bool.false_eq_true, ↓reduceIte, h6, hne66]
+      congr 1
+      exact fileBA_eq idna r hb emptyAgg fileStart_empty frag d hid
+    | some nr =>
+      obtain ⟨name, rest⟩ := nr
+      simp only [parseSchemeA_eq]
+      rw [PS.parseSchemeNoOverride_spec]
+      simp only
+      by_cases h6 : (getSchemeType (name.map toLowerByte) == 6) = true
+      · simp only [h6, ↓reduceIte]
+        have hfile : name.map toLowerByte = bFile := by
+          have := (Proto.type_facts (name.map toLowerByte)).2.1
+          rw [h6] at this
+          simpa using this.symm
+        rw [hfile]
+        congr 1
+        exact fileBA_eq idna r hb _ fileStart_scheme frag rest hid
+      · -- the input is not a file URL, so the base is; but then the base's type is not the input's
+        have h6b : getSchemeType r.scheme = 6 := by
+          cases hx : decide (getSchemeType r.scheme = 6) with
+          | true => simpa using hx
+          | false =>
+            exfalso; apply hroute
+            refine ⟨by simpa using hx, ?_⟩
+            intro n2 r2 h2
+            rw [hss] at h2
+            injection h2 with h2; injection h2 with e1 e2; subst e1
+            rw [PS.parseSchemeNoOverride_spec]
+            simpa using h6
+        simp only [h6, Bool.false_eq_true, ↓reduceIte, h6b]
+        have hneq : ((6 : Nat) == getSchemeType (name.map toLowerByte)) = false := by
+          have : getSchemeType (name.map toLowerByte) ≠ 6 := by simpa using h6
+          simpa using fun e => this e.symm
+        simp only [hneq, Bool.and_false, Bool.false_eq_true, ↓reduceIte]
+        by_cases h1 : (getSchemeType (name.map toLowerByte) == 1) = true
+        · simp only [h1, ↓reduceIte]
+          congr 1
+          exact afterSchemeNSA_eq idna _ frag rest
+        · simp only [h1, Bool.false_eq_true, ↓reduceIte]
+          congr 1
+          unfold afterScheme
+          exact afterSlashesA_eq idna true _ _ frag _
 
 end AdaVerif.Lemmas.PAB
